@@ -73,6 +73,12 @@ Verdict(o) ==
               ELSE IF ~BuilderOK(bctx0, c.adds, o.adds, 1) THEN "builder Add disagrees"
               ELSE IF ~TableOK(bctx, o.built) THEN "built table disagrees with the ID space"
               ELSE IF ~TableOK(bctx, o.builder) THEN "builder queried as a table disagrees with the ID space"
+              \* the table written out and read back (catalog holding the imports) denotes the same ID space
+              ELSE IF o.rt = "skip" THEN "ok"
+              ELSE IF o.rt # "" THEN "the written table cannot be read back: " \o o.rt
+              ELSE IF ~TableOK(ctx, o.viastring) THEN "String() read back denotes another ID space"
+              ELSE IF ~TableOK(ctx, o.viawriteto) THEN "WriteTo(text) read back denotes another ID space"
+              ELSE IF ~TableOK(ctx, o.viabinary) THEN "the table emitted by a binary writer denotes another ID space"
               ELSE "ok"]
 ASSUME ndJsonSerialize(VerdictFile, [i \in 1..Len(Obs) |-> Verdict(Obs[i])])
 =============================================================================
